@@ -125,8 +125,8 @@ private theorem view_flatten (l l' : List (List Feat))
     the same names, revisions, implemented flags and feature values in the same order have the same hash -/
 theorem hash_deterministic (s s' : Ctx) (h : s'.mods.map hashView = s.mods.map hashView) :
     s'.modulesHash = s.modulesHash := by
-  have key : ∀ (l l' : List Mod) (fi : Nat), l'.map hashView = l.map hashView → hashParts l' fi = hashParts l fi := by
-    intro l
+  have key : ∀ (rs : Bool) (l l' : List Mod) (fi : Nat), l'.map hashView = l.map hashView → hashPartsG rs l' fi = hashPartsG rs l fi := by
+    intro rs l
     induction l with
     | nil => intro l' fi h; cases l' with
       | nil => rfl
@@ -140,9 +140,10 @@ theorem hash_deterministic (s s' : Ctx) (h : s'.mods.map hashView = s.mods.map h
         obtain ⟨⟨h1, h2, h3, h4, h5⟩, hr⟩ := h
         have hlen : m'.subFeats.length = m.subFeats.length := by
           have := congrArg List.length h5; simpa using this
-        have hfi : (hashFeats m' fi).2 = (hashFeats m fi).2 := by
-          simp only [hashFeats, hlen]; split <;> rfl
-        have hen : ((hashFeats m' fi).1.filter (·.on)).map (·.name) = ((hashFeats m fi).1.filter (·.on)).map (·.name) := by
+        have hfi : ∀ fi, (hashFeats m' fi).2 = (hashFeats m fi).2 := by
+          intro fi; simp only [hashFeats, hlen]; split <;> rfl
+        have hen : ∀ fi, ((hashFeats m' fi).1.filter (·.on)).map (·.name) = ((hashFeats m fi).1.filter (·.on)).map (·.name) := by
+          intro fi
           apply enabled_of_view
           unfold hashFeats
           dsimp only
@@ -151,15 +152,15 @@ theorem hash_deterministic (s s' : Ctx) (h : s'.mods.map hashView = s.mods.map h
             simp only [List.drop_zero] at this
             simp [Mod.allFeats, h4, this]
           · exact view_flatten _ _ h5 _
-        simp only [hashParts, h1, h2, h3, hfi, hen]
+        simp only [hashPartsG, h1, h2, h3, hfi, hen]
         rw [ih r' _ hr]
-  simp only [Ctx.modulesHash, key _ _ 0 h]
+  simp only [Ctx.modulesHash, Ctx.modulesHashG, key _ _ _ 0 h]
 
 /-- **flipping `implemented` of any one module changes the 32-bit value** (same length, one byte differs; every step of
     the Jenkins hash is a bijection of the state — proved algebraically in `Ctx/JenkinsLemmas.lean`) -/
 theorem hash_depends_on_implemented (s s' : Ctx) (pre suf : List Mod) (m : Mod) (hs : s.mods = pre ++ m :: suf)
     (hs' : s'.mods = pre ++ flipImpl m :: suf) (hw : WfNames s.mods) : s.modulesHash ≠ s'.modulesHash :=
-  hash_flip_implemented s s' pre suf m hs hs' hw
+  hash_flip_implemented _ s s' pre suf m hs hs' hw
 
 open LyModel.Ctx.Ex in
 /-- non-vacuity: `aaa` implemented vs. imported only (`0ab1… ≠ …`) -/
@@ -174,41 +175,69 @@ example : WfNames (run (ctx0 [A]) (.parse A none)).2.mods := by
   have := h1.2 f hf
   simp [h] at this
 
-/-- **what reaches the hash (the part of `hash_depends` that holds).**  Name, revision and `implemented` of every module,
-    in order; the enabled features of the FIRST module (and its submodules); of a later module only the features of
-    those submodules whose index is at least the largest number of submodules seen so far — none at all when it has no
-    more submodules than an earlier module. -/
-theorem hash_input_partial (m : Mod) (r : List Mod) :
+/-- the code as it is now: is the feature iterator index restarted for every module?  (read from context.c on every run) -/
+abbrev fiReset : Bool := Generated.CtxFacts.hashFiReset
+
+/-- **what reaches the hash (the part of `hash_depends` that holds for the pinned code, where `fi` is not reset).**
+    Name, revision and `implemented` of every module, in order; the enabled features of the FIRST module (and its
+    submodules); of a later module only the features of those submodules whose index is at least the largest number
+    of submodules seen so far — none at all when it has no more submodules than an earlier module. -/
+theorem hash_input_partial (hcode : fiReset = false) (m : Mod) (r : List Mod) :
     hashParts (m :: r) 0 = [m.src.name] ++ (if m.src.rev.isEmpty then [] else [m.src.rev]) ++ m.enabledNames
         ++ [[implByte m]] ++ hashParts r (m.subFeats.length + 1) ∧
     ∀ (m' : Mod) (r' : List Mod) (fi : Nat), m'.subFeats.length < fi →
       hashParts (m' :: r') fi = [m'.src.name] ++ (if m'.src.rev.isEmpty then [] else [m'.src.rev]) ++ [[implByte m']]
         ++ hashParts r' fi := by
+  unfold hashParts
+  rw [show Generated.CtxFacts.hashFiReset = false from hcode]
   constructor
-  · simp [hashParts, hashFeats, Mod.enabledNames, implByte]
+  · simp [hashPartsG, hashFeats, Mod.enabledNames, implByte]
   · intro m' r' fi hfi
     have h0 : fi ≠ 0 := by omega
     have hd : List.drop (fi - 1) m'.subFeats = [] := List.drop_eq_nil_of_le (by omega)
     have hmax : max fi (m'.subFeats.length + 1) = fi := by omega
-    simp [hashParts, hashFeats, h0, hd, hmax, implByte]
+    simp [hashPartsG, hashFeats, h0, hd, hmax, implByte]
 
-open LyModel.Ctx.Ex in
-/-- **The statement as given is false (F23).**  `aaa` (no feature enabled) and `bbb` with its feature `g1` off / on:
-    the feature state of `bbb` is different, the hash is the same — the feature iterator index `fi` is not reset per
-    module, so only the first module's features are visited. -/
-theorem hash_depends_fails :
+/-- with the index restarted per module (fixes/F23.diff) the hashed parts are exactly what the documentation says:
+    for every module its name, revision, all its enabled features, `implemented` -/
+theorem hash_input_fixed (hcode : fiReset = true) (l : List Mod) (fi : Nat) : hashParts l fi = hashPartsSpec l := by
+  unfold hashParts
+  rw [show Generated.CtxFacts.hashFiReset = true from hcode]
+  induction l generalizing fi with
+  | nil => rfl
+  | cons m r ih => simp [hashPartsG, hashPartsSpec, hashFeats, Mod.enabledNames, ih]
+
+/-- the two contexts of the F23 witness: `aaa` (no feature enabled), `bbb` with `g1` off / on -/
+def wOff : Ctx := LyModel.Ctx.Ex.runs (LyModel.Ctx.Ex.ctx0 [LyModel.Ctx.Ex.A, LyModel.Ctx.Ex.B2])
+  [.parse LyModel.Ctx.Ex.A none, .parse LyModel.Ctx.Ex.B2 none]
+def wOn : Ctx := LyModel.Ctx.Ex.runs (LyModel.Ctx.Ex.ctx0 [LyModel.Ctx.Ex.A, LyModel.Ctx.Ex.B2])
+  [.parse LyModel.Ctx.Ex.A none, .parse LyModel.Ctx.Ex.B2 (some [LyModel.Ctx.Ex.bs "g1"])]
+
+/-- **The statement as given is false for the pinned code (F23).**  The feature state of `bbb` is different, the hash is the
+    same — the feature iterator index `fi` is not reset per module, so only the first module's features are visited. -/
+theorem hash_depends_fails (hcode : fiReset = false) :
     ¬ ∀ (s s' : Ctx), s.mods.map hashView ≠ s'.mods.map hashView → s.modulesHash ≠ s'.modulesHash := by
   intro h
-  have hne : (runs (ctx0 [A, B2]) [.parse A none, .parse B2 none]).mods.map hashView ≠
-      (runs (ctx0 [A, B2]) [.parse A none, .parse B2 (some [bs "g1"])]).mods.map hashView := by
+  have hne : wOff.mods.map hashView ≠ wOn.mods.map hashView := by
     intro heq
-    have : ((runs (ctx0 [A, B2]) [.parse A none, .parse B2 none]).mods.map hashView ==
-      (runs (ctx0 [A, B2]) [.parse A none, .parse B2 (some [bs "g1"])]).mods.map hashView) = true := by rw [heq]; simp
+    have : (wOff.mods.map hashView == wOn.mods.map hashView) = true := by rw [heq]; simp
     revert this
     decide +kernel
-  have := h _ _ hne
-  revert this
+  have h1 := h _ _ hne
+  unfold Ctx.modulesHash at h1
+  rw [show Generated.CtxFacts.hashFiReset = false from hcode] at h1
+  revert h1
   decide +kernel
+
+/-- … and with the index restarted the two contexts of the witness are told apart -/
+example : wOff.modulesHashG true ≠ wOn.modulesHashG true := by decide +kernel
+
+/-- the model's counter has the width of `ly_ctx.change_count` -/
+example : Generated.CtxFacts.changeCountBits = 16 := by decide
+
+/-- the shape table of the internal modules (`Ctx.internalMods`) lists the modules of `internal_modules[]` -/
+example : internalMods.map (fun m => (m.src.name, m.implemented)) =
+    Generated.CtxFacts.internalModules.map (fun x => (x.1.toUTF8.toList, x.2)) := by decide +kernel
 
 /-! ## the counter and features in an explicit-compile context (F53) -/
 
